@@ -269,6 +269,18 @@ class TemplateEvaluator:
                 return cont(em, env)
             if isinstance(st, ast.Pass):
                 return cont(em, env)
+            if isinstance(st, ast.Try) and not inloop:
+                # a try around generation-time facts (e.g. sizeof() raising SizeofError): one variant in which the body completes,
+                # and one per handler in which the exception came before the body had any effect (locals of the body stay unbound)
+                marker = ast.Name(id="__try_%d_completes" % st.lineno, ctx=ast.Load())
+                e2 = self.clone(em)
+                e2.conds.append((marker, True))
+                run(list(st.body) + list(st.orelse) + list(st.finalbody) + rest, e2, dict(env), k)
+                for h in st.handlers:
+                    e3 = self.clone(em)
+                    e3.conds.append((marker, False))
+                    run(list(h.body) + list(st.finalbody) + rest, e3, dict(env), k)
+                return
             raise AnalysisError("template of %s: unsupported statement %s (line %d)" % (fi.qual, type(st).__name__, st.lineno))
 
         run(list(fi.node.body), Emitted(fi), {}, lambda e, v: None)
